@@ -172,6 +172,15 @@ def gen_jobs(tier, seed):
             methods[0]["bare"] = False
             w["methods"] = methods
             calls = [c for c in calls if not c["pos"][0].get("any") and c["pos"][0]["c"] != 1]
+        if q % 11 == 6 and not with_inst:
+            # a single method whose annotation is Dependent[type[X], <always true>] (plus, sometimes, an ordinary int method):
+            # applicable to a passed type iff type[X] admits it
+            a1 = rng.choice([n_ for n_ in tynodes if w["elements"][n_ - 1]["k"] != "metaof"])
+            methods = [worlds.mkmethod("m1", 1, [a1])]
+            methods[0]["bare"] = rng.random() < 0.5
+            methods[0]["depwrap"] = True
+            w["methods"] = methods
+            calls = [c for c in calls if not c["pos"][0].get("any")]
         jobs.append({"id": f"C14-{q}", "world": w, "calls": calls})
     return jobs
 
